@@ -301,6 +301,13 @@ def oracle_c11p(seq, obs):
                 return f"call #{j}: last_exception is not the exception raised by the last attempt ({oc['exc']} vs attempt {len(inv)})"
             if oc["cause"] is None and oc["class"] is None and len(inv) > 0:
                 return f"call #{j}: the operation was invoked and failed but the outcome describes no failure: {oc}"
+        if not oc["ok"]:
+            # next_sleep_s is the deferred delay, present exactly when the run stopped because the sleep handler deferred
+            deferred = [e for e in o["trace"] if e[0] == "H" and e[5] == "D"]
+            if (oc["next"] is not None) != (oc["stop"] == "SCHEDULED"):
+                return f"call #{j}: next_sleep_s={oc['next']} with stop_reason={oc['stop']}"
+            if deferred and oc["stop"] == "SCHEDULED" and oc["next"] != deferred[-1][4]:
+                return f"call #{j}: the handler deferred a delay of {deferred[-1][4]} ticks but next_sleep_s={oc['next']}"
     return None
 
 
